@@ -20,6 +20,8 @@ structure TPass where
   adv : List ((Nat × Nat) × Nat)
   aos : List ((Nat × Nat) × Nat)
   tr : List ((Nat × Nat) × (PR × Nat × Nat))
+  fmt : List (Nat × List Nat) := []       -- content ↦ alternatives `new` tries to rewrite the file to
+  bail : Bool := false
 
 def prOf (s : String) : PR :=
   if s = "OK" then .ok else if s = "INVALID" then .invalid else if s = "STOP" then .stop else if s = "ERROR" then .error else .crash
@@ -36,7 +38,11 @@ def parsePass (s : String) : TPass :=
     aos := (items (get "aos") ",").map trip,
     tr := (items (get "tr") ",").map fun x => match x.splitOn ":" with
       | [a, b, r, c, d] => ((nat! a, nat! b), (prOf r, nat! c, nat! d))
-      | _ => ((0, 0), (.crash, 0, 0)) }
+      | _ => ((0, 0), (.crash, 0, 0)),
+    fmt := (items (get "fmt") ",").map fun x => match x.splitOn ":" with
+      | a :: rest => (nat! a, rest.map (nat! ·))
+      | _ => (0, []),
+    bail := get "bail" = "1" }
 
 def TPass.toI (t : TPass) : PassI Nat Nat where
   key := t.key
@@ -45,6 +51,8 @@ def TPass.toI (t : TPass) : PassI Nat Nat where
   advance := fun c s => t.adv.lookup (c, s)
   aos := fun c s => t.aos.lookup (c, s)
   transform := fun c s => (t.tr.lookup (c, s)).getD (.invalid, c, s)
+  fmt := fun c => (t.fmt.lookup c).getD []
+  bail := t.bail
 
 def exitOf (s : String) : Exit :=
   if s = "timeout" then .timeout else if s = "foreign" then .foreign else if s = "broken" then .broken else .code (int! s)
